@@ -8,16 +8,20 @@ Also measures bool(a == b) / bool(a != b) on the value pool (CPython / pool clas
 import logging
 import os
 import sys
+import warnings
+
+import numpy as np
 
 sys.path.insert(0, os.path.dirname(os.path.abspath(__file__)))
 import dlib  # noqa: E402
 
 from traits.api import (  # noqa: E402
-    Any, ComparisonMode, Event, Instance, Int, List, PrototypedFrom, Range, Trait, HasTraits, TraitError, TraitType, Undefined, Uninitialized, observe, on_trait_change,
+    Any, Array, ComparisonMode, Event, Instance, Int, List, PrototypedFrom, Range, Trait, HasTraits, TraitError, TraitType, Undefined, Uninitialized, observe, on_trait_change,
     pop_exception_handler, push_exception_handler)
 from traits.observation import api as obs_api  # noqa: E402
 
 logging.disable(logging.CRITICAL)
+warnings.simplefilter("ignore")
 
 
 class Eq:
@@ -82,7 +86,8 @@ class Marker:
 
 # the value pool; index = atom
 POOL = [Eq(1), Eq(1), Eq(2), float("nan"), float("nan"), EqRaises(), None, [1], [1], Marker(), Marker(), Incoherent(),
-        0, 0.0, ArrayLike(), BadRepr(), 3, 5, 7, 99]
+        0, 0.0, ArrayLike(), BadRepr(), 3, 5, 7, 99,
+        np.array([2.5]), np.array([2.5]), np.array([3.5]), np.array([1.0, 2.0]), np.array([1.0, 2.0])]
 REJ, ALIAS = 9, 10            # pool[REJ] is rejected by the trait, pool[ALIAS] is converted to pool[0]
 MODES = {"none": ComparisonMode.none, "identity": ComparisonMode.identity, "equality": ComparisonMode.equality}
 
@@ -205,6 +210,9 @@ def make_class(kind, mode, default, statics, orig=False, variant="", build="", s
             _shared[key] = ct
         ct = _shared[key[:-2] + (False, subclass)]
         ns = {"x": ct, "y": ct}
+    elif variant == "array":
+        # numpy Array trait: identity comparison mode by default (trait_numeric.AbstractArray), default copied per instance
+        ns = {"x": Array(value=np.array([9.5])), "y": Int(0)}
     elif variant == "drange":
         # Range with DYNAMIC bounds: a property-like trait (BaseRange._get_value / _set_value, trait_types.py l.1890-1917)
         # that keeps its value in __dict__["_traits_cache_x"] and notifies through trait_property_changed when value != old
@@ -241,6 +249,16 @@ def make_class(kind, mode, default, statics, orig=False, variant="", build="", s
         def _decorated_obs(self, event):
             record(4, event.old, event.new)
         ns["_decorated_obs"] = _decorated_obs
+    if "dotcp" in statics:           # @on_trait_change("x", post_init=True): hooked up by _post_init_trait_listeners
+        @on_trait_change("x", post_init=True)
+        def _decorated_otc_post(self, obj, name, old, new):
+            record(6, old, new)
+        ns["_decorated_otc_post"] = _decorated_otc_post
+    if "dobsp" in statics:           # @observe("x", post_init=True): hooked up by _post_init_trait_observers
+        @observe("x", post_init=True)
+        def _decorated_obs_post(self, event):
+            record(7, event.old, event.new)
+        ns["_decorated_obs_post"] = _decorated_obs_post
     if "dobsx" in statics:           # a static handler migrated to observe WITHOUT renaming it: @observe("x") def _x_changed
         @observe("x")
         def _x_changed(self, event):
@@ -473,7 +491,7 @@ def run_case(case):
                 if op[1] == "e":
                     a.e = POOL[2]
                 elif op[1] == "y":
-                    a.y = POOL[12] if case.get("variant") == "drange" else POOL[2]
+                    a.y = POOL[12] if case.get("variant") in ("drange", "array") else POOL[2]
                 elif op[1] == "reassign-reversed":     # the owner's list is re-assigned with the same objects
                     owner().members = list(reversed(owner().members))
                 elif op[1] == "reassign-same-order":
@@ -515,7 +533,7 @@ def main():
     eq, ne = tables()
     if "--tables" in sys.argv:
         fresh = {}
-        for name, mk in (("fresh-eq", lambda: []), ("fresh-ne", FreshDefault)):
+        for name, mk in (("fresh-eq", lambda: []), ("fresh-ne", FreshDefault), ("fresh-array", lambda: np.array([9.5]))):
             d, d2 = mk(), mk()
             fresh[name] = {
                 "eq": {"row": [cmp3(lambda p=p: d == p) for p in POOL], "col": [cmp3(lambda p=p: p == d) for p in POOL],
